@@ -532,11 +532,12 @@ def spec_add(items):
     for j, it in enumerate(flat):
         if it[0] != "M":
             continue
-        name = "register%d" % nm if it[2] is None else it[2]
-        # explicit and default names are both checked against the still-terminal measurements
-        if any(final_in(j, i) and names[i] == name for i in names):
-            return "ERR %d | %s" % (src[j], _s([i for i in names if final_in(j, i)]))
-        names[j] = name
+        if it[2] is None:
+            names[j] = "register%d" % nm  # default names are not checked (see default-name clash)
+        else:
+            if any(final_in(j, i) and names[i] == it[2] for i in names):
+                return "ERR %d | %s" % (src[j], _s([i for i in names if final_in(j, i)]))
+            names[j] = it[2]
         nm += 1
     L = len(flat)
     fin = [i for i in range(L) if final_in(L, i)]
@@ -686,6 +687,39 @@ def spec_probs_history(regs, rows, ops):
     for op, b in zip(ops, base):
         out.append(_s(empirical_counts(rows, flat, op[1])) if op[0] == "probs" else b)
     return out
+
+
+def check_register_names(n, items):
+    """PROPERTY (registers are the same data viewed differently): the terminal measurements of
+    an accepted circuit have pairwise different register names, so that no register is lost in
+    measurement_tuples / samples(registers=True).  Returns None or a description."""
+    c = Circuit(n)
+    for it in items:
+        try:
+            c.add(mk_gate(it[1], it[2]) if it[0] == "G" else mk_meas(it))
+        except KeyError:
+            return None  # rejected: nothing is lost silently
+    names = [m.register_name for m in c.measurements]
+    if len(set(names)) != len(names) or len(c.measurement_tuples) != len(c.measurements):
+        return "terminal measurements %r carry the register names %r: measurement_tuples has %d entries for %d registers" % (
+            [tuple(m.target_qubits) for m in c.measurements], names, len(c.measurement_tuples), len(c.measurements))
+    return None
+
+
+def default_name_clash(items):
+    """input class: an explicit register name equal to the default name `register<k>` that a
+    LATER measurement added without a name receives."""
+    nm, explicit = 0, set()
+    for it in items:
+        if it[0] != "M":
+            continue
+        if it[2] is None:
+            if "register%d" % nm in explicit:
+                return True
+        else:
+            explicit.add(it[2])
+        nm += 1
+    return False
 '''
 
 H = {}
@@ -1641,8 +1675,8 @@ def add_suite(ctx):
             items += [("M", [q], None, False, "Z") for q in qs]
             items.append(("G", "U" if len(qs) > 3 else rng.choice(["U", "ctrl"]), qs[:3] if rng.random() < 0.7 else qs[-3:]))
         cases.append((n, items))
-    # (d) default-name clash (repaired defect): an explicit "register<k>" still terminal when the
-    # k-th measurement gate arrives without a name -> KeyError; no clash once it is collapsing
+    # (d) default-name clash (known finding): an explicit "register<k>" still terminal when the
+    # k-th measurement gate arrives without a name; no clash once it is collapsing
     for n_, pre in ((2, [("M", [0], "register1", False, "Z")]),
                     (3, [("M", [0], None, False, "Z"), ("M", [1], "register2", False, "Z")]),
                     (3, [("M", [2, 0], "register1", False, "ZX")]),
@@ -1678,8 +1712,6 @@ def add_suite(ctx):
             bad += 1
             nM = sum(1 for it in items if it[0] == "M")
             key = "circuit-add:" + ("rejected" if real.startswith("ERR") or model.startswith("ERR") else "measurements" if real.split("|")[1:2] != model.split("|")[1:2] else "queue")
-            if spec.startswith("ERR") and not real.startswith("ERR") and items[int(spec.split()[1])][2] is None:
-                key = "circuit-add:default-name-clash"
             py = (replay_header() + f"# Circuit({n}).add of: " + "; ".join(descr) + f"\nitems = {items!r}\n"
                   f"obs = ' '.join(observe_add({n}, items).split())\nexp = ' '.join(spec_add(items).split())\n"
                   "# format: queue (M:targets:register:collapse / G:qubits) | positions of circuit.measurements | has_collapse | measurement_tuples\n"
@@ -1687,6 +1719,33 @@ def add_suite(ctx):
             ctx.fail(key, f"Circuit.add bookkeeping after {descr}: a measurement must stay terminal iff no later gate touches one of its qubits ({nM} measurements)",
                      py, expected=spec, observed=real, broken=["C03_corr_add"])
     ctx.ob("C03_corr_add", bad == 0 and sbad == 0, "correspondence", f"{bad} disagreements, {sbad} model/spec" if bad or sbad else "")
+    # direct property search: register names of the terminal measurements are pairwise different.
+    # The input class excluded by the hypothesis `NoClash` of T03_add_names_unique (explicit name
+    # = default name of a later measurement) is reported under its own stable key.
+    nbad = cbad = 0
+    for n, items in cases:
+        clash = H["default_name_clash"](items)
+        if clash:
+            ctx.stat("add_default_name_clash_inputs")
+        try:
+            why = H["check_register_names"](n, items)
+        except Exception as e:  # noqa
+            why = f"{type(e).__name__}: {e}"
+        if not why:
+            continue
+        descr = [add_descr(it) for it in items]
+        py = (replay_header() + f"# Circuit({n}).add of: " + "; ".join(descr) + f"\nitems = {items!r}\n"
+              f"why = check_register_names({n}, items)\nassert why is None, why\n")
+        if clash:
+            cbad += 1
+            ctx.fail("circuit-add:default-name-clash", f"Circuit.add of {descr}: an explicit register name equals the default name of a later measurement and is not rejected: {why}",
+                     py, expected="KeyError or distinct register names", observed=why, broken=["C03_search_default_name_clash"])
+        else:
+            nbad += 1
+            ctx.fail("circuit-add:register-names", f"Circuit.add of {descr}: {why}", py, expected="distinct register names", observed=why,
+                     broken=["C03_search_register_names"])
+    ctx.ob("C03_search_register_names", nbad == 0, "search", f"{nbad} failing inputs" if nbad else "")
+    ctx.ob("C03_search_default_name_clash", cbad == 0, "search", f"{cbad} failing inputs (explicit name = later default name)" if cbad else "")
 
 
 # ---------------------------------------------------------------------------
